@@ -172,7 +172,7 @@ def run_job(job, ctx):
         return
     if job["kind"] == "fields":
         for groups in job["subsets"]:
-            for target in ("Schema", "Config", "ConfigType", "DynamicConfig"):
+            for target in ("Schema", "Config", "ConfigType", "DynamicConfig", "Nested", "NestedConfig", "Nested2"):
                 check_fields(ctx, groups, target)
         ctx.sample({"field_groups": job["subsets"][-1], "targets": ["Schema", "Config", "ConfigType", "DynamicConfig"]})
     else:
@@ -257,6 +257,15 @@ def check_fields(ctx, groups, target):
         cfg.runtime_extra = 5
         cfg.runtime_other = "x"
         obj, name = cfg, "Stub"
+    elif target in ("Nested", "NestedConfig", "Nested2"):
+        # a sub-schema that is mounted in another schema (one and two levels down), and the sub-configuration built from it
+        if "nested" not in groups:
+            os.environ.pop(BAD_ENV, None)
+            return
+        if target == "Nested2":
+            obj, name, attrs, persistent = schema.sub.deep, "Stub", ["y"], ["y"]
+        else:
+            obj, name, attrs, persistent = (schema.sub if target == "Nested" else cfg.sub), "Stub", ["x", "deep"], ["x", "deep"]
     elif target == "Config":
         obj, name = cfg, "Stub"
     else:
@@ -316,7 +325,7 @@ def check_fields(ctx, groups, target):
         if again[0] == "ok" and "runtime_extra" in again[1]:
             bad("schema-changed|schema-stub", "a stub generated from the schema now declares another configuration's run-time field")
     # the schema grows after a stub was generated: the next stub must describe the schema as it is now
-    if target not in ("Config", "DynamicConfig"):
+    if target not in ("Config", "DynamicConfig", "Nested", "NestedConfig", "Nested2"):
         schema.late_field = cc.IntField()
         schema.late_virtual = cc.VirtualField(lambda c: 0)
         cc.instance_method(schema, "late_method")(lambda c, a, *rest, **kw: None)
